@@ -189,10 +189,27 @@ def scripted():
         await t3
         for _ in range(3):
             await asyncio.sleep(0)
+        # a nested block that fails while being entered has been left for good: the enclosing scope still completes
+        class Bad:
+            async def __aenter__(self):
+                raise RuntimeError("cannot enter")
+
+            async def __aexit__(self, *a):
+                return None
+        async with ctx.scope("R", completion=cb("R")):
+            try:
+                async with ctx.scope("R-inner", disposables=[Bad()], completion=cb("R-inner")):
+                    order.append("R-inner-body-ran")
+            except RuntimeError:
+                pass
+        for _ in range(3):
+            await asyncio.sleep(0)
     asyncio.run(main())
     if problems:
         return problems
-    for tag in ("P", "C1", "C2", "Q", "late"):
+    if "R-inner-body-ran" in order:
+        return ["the body of a scope whose disposable failed to enter ran"]
+    for tag in ("P", "C1", "C2", "Q", "late", "R"):
         if order.count(tag) != 1:
             return [f"completion callback of {tag} ran {order.count(tag)} times (order {order})"]
     if not (order.index("C1-left") < order.index("P") and order.index("C2-left") < order.index("P")):
